@@ -143,6 +143,11 @@ def r_lazy_iter(ctx: Ctx, rule: str) -> None:
                     what = cal.name
                     if cal.kind == "pkg" and all(t.name in ("_map", "_arg_consumer") for t in cal.targets):
                         ok = True
+                    elif cal.name.rpartition(".")[2] == "partial" and par.args and node is not par.args[0]:
+                        # partial(self._arg_consumer, ..., arg_iter, ...): the iterable is only stored for the consumer
+                        pc = sc.callee(ast.Call(func=par.args[0], args=[], keywords=[]))
+                        ok = pc.kind == "pkg" and bool(pc.targets) and all(t.name in ("_map", "_arg_consumer") for t in pc.targets)
+                        what = "functools.partial of " + pc.name
                     elif cal.kind == "ext" and cal.name in ("builtins.enumerate", "builtins.iter"):
                         gp = parents.get(id(par))
                         ok = isinstance(gp, (ast.For,)) and gp.iter is par
